@@ -328,6 +328,15 @@ def check(case, ctx):
             raise Violation("Annotated type hints of a well-formed signature rejected", signature=text, exception=type(e).__name__, message=str(e)[:200])
         if str(guf.signature) != text:
             raise Violation("type hints denote another signature than the equivalent string", signature=text, from_hints=str(guf.signature))
+        # binding the same annotated function again denotes the same signature, and the function keeps its annotations
+        try:
+            guf2 = GridUFunc(fn, signature="")
+        except Exception as e:  # noqa: BLE001
+            raise Violation("second binding of the same type-hinted function rejected", signature=text, exception=type(e).__name__, message=str(e)[:200])
+        if str(guf2.signature) != text:
+            raise Violation("second binding of the same type-hinted function denotes another signature", signature=text, second=str(guf2.signature))
+        if set(fn.__annotations__) != set(ann):
+            raise Violation("binding a type-hinted function modified its annotations", before=sorted(ann), after=sorted(fn.__annotations__))
 
     # the predefined operations are found for an axis of any name
     ax = case["axis_name"]
